@@ -886,3 +886,134 @@ def check_window_config(ctx, rule="R4-window-config", overlap=True):
         if good and not bad: ctx.holds(rule, c, "explicit overlap stored unchanged", where)
         elif bad: ctx.violated(rule, c, f"an explicitly requested overlap of {label} is replaced by {bad[0]!r}", where)
         else: ctx.unknown(rule, c, f"final_olap is {ol!r}"[:200], where)
+
+
+# ---------------------------------------------------------------------------- assembled statistics are made finite on every path
+DATA_STATS = ("XX", "YY", "XY", "M2")
+
+
+def _finite_fn(zero):
+    nm = "finite0" if zero else "finite_big"
+
+    def fin(x):
+        if x.isreal(): return mk_fn(nm, [x])
+        from .symalg import I_ as IMAG
+        return mk_fn(nm, [x.real()]) + X(IMAG) * mk_fn(nm, [x.imag()])      # numpy cleans the two components separately
+    return fin
+
+
+def _content(L, st):
+    """element j of a local array as seen through all its stores (conditional stores give a decision tree)."""
+    if not isinstance(L, LocalArr): return as_arr(L) if isinstance(L, (Arr, ArrParam)) else None
+    if len(L.shape) != 1: return local_to_arr(L, st)
+    j = fresh("j")
+    v = lm.read_local(L, [X.var(j)], st)
+    return Arr([(j, L.shape[0])], v)
+
+
+def _is_zero(v):
+    x = to_x(v) if v is not None and not is_opaque(v) else None
+    return x is not None and x.iszero()
+
+
+def sanitising_lib(base):
+    """np.nan_to_num as the elementwise function finite0 (idempotent, identity on finite values); in place when copy=False.
+    np.isfinite as an elementwise predicate, so that `np.isfinite(a).all()` is a condition about a's current content."""
+    def lib(I, name, args, kw, st, n):
+        if name == "numpy.nan_to_num" and args:
+            a = args[0]
+            fin = _finite_fn(all(_is_zero(kw.get(k)) for k in ("nan", "posinf", "neginf")))
+            if isinstance(a, LocalArr):
+                A = _content(a, st)
+                if A is None or is_opaque(A): return Opaque("nan_to_num of a partially defined array")
+                B = lift1(fin, A)
+                if kw.get("copy") is False:
+                    ext = tuple(("under", e[0], e[1]) for e in getattr(st, "under", []) if len(e) < 3 or e[2] is None or a.ident in e[2])
+                    a.stores.append((tuple(B.axes), tuple(X.var(v) for v, _ in B.axes), B.body) + ext)
+                    return a
+                return B
+            return lift1(fin, a)
+        if name == "numpy.isfinite" and args:
+            a = args[0]
+            A = _content(a, st) if isinstance(a, LocalArr) else a
+            if A is None: return Opaque("isfinite of a partially defined array")
+            return lift1(lambda x: mk_fn("isfinite", [x]), A)
+        return base(I, name, args, kw, st, n)
+    return lib
+
+
+def _strip_finite(x):
+    """(x with every finite0(...) replaced by a fresh symbol, names of raw kernel outputs left outside any finite0)."""
+    y = x.map_atoms(lambda a: X.var("_finite") if a.tag == "fn" and a.name == "finite0" else X.atom(a))
+    raw = sorted({a.name for a in y.all_atoms() if a.tag == "fn" and (a.name.startswith("OUT_") or a.name == "finite_big")})
+    return y, raw
+
+
+def _proven_finite(path, leaf, jvar):
+    """the path contains `all(isfinite(E))` taken true for an array whose element is this leaf."""
+    for cond, pol in path:
+        A = getattr(cond, "all_of", None)
+        if A is None or not pol or A.ndim != 1: continue
+        b = to_x(A.body) if not isinstance(A.body, PV) and not is_opaque(A.body) else None
+        if b is None: continue
+        want = mk_fn("isfinite", [leaf.subst({jvar: X.var(A.axes[0][0])})]) if leaf.isreal() else None
+        if want is not None and b.eq(want): return True
+        if want is None:
+            # complex: isfinite(z) as one predicate on the complex element
+            if b.eq(mk_fn("isfinite", [leaf.subst({jvar: X.var(A.axes[0][0])})])): return True
+    return False
+
+
+def check_statistics_finite(ctx, rule="R8-statistics-made-finite"):
+    """every data-dependent statistic handed to the result (XX, YY, XY, M2: sums of squares that overflow to inf for huge finite samples)
+    has passed through np.nan_to_num(nan=0, posinf=0, neginf=0), or was tested all-finite, on every path of compute()."""
+    setup()
+    repo = ctx.repo
+    fkey = AN + ".compute"; fn = repo.get(fkey); ctx.analysed(fkey)
+    where = repo.where(fkey, fn)
+    n_ob = 0
+    for iscsd in (True, False):
+        R = Run(repo, "numba")
+        plan = plan_obj()
+        me = analyzer_obj(0, iscsd, True, plan)
+        old = R._call
+
+        def call2(I_, f, args, kwargs, st, node, old=old, plan=plan):
+            if f.key == AN + ".plan": return plan
+            return old(I_, f, args, kwargs, st, node)
+        R.I.hooks["call"] = call2
+        R.I.hooks["lib"] = sanitising_lib(window_lib)
+        mode = "cross" if iscsd else "auto"
+        try:
+            R.I.call_func(Func(fkey, fn), [me], {}, St(), None)
+        except Unknown as ex:
+            ctx.unknown(rule, f"{fkey}[{mode}]", str(ex), where); continue
+        if len(R.made) != 1 or not R.made[0][1] or not isinstance(R.made[0][1][0], DictVal):
+            ctx.unknown(rule, f"{fkey}[{mode}]", "SpectrumResult construction not recognised", where); continue
+        d = R.made[0][1][0].d
+        for k in DATA_STATS:
+            c = f"{fkey}[{mode}:{k}]"
+            v = d.get(k)
+            if v is None or type(v).__name__ == "_Missing" or repr(v) == "<missing>":
+                ctx.unknown(rule, c, f"result field {k} missing", where); continue
+            for path0, v1 in pv_leaves(v):
+                A = _content(v1, St()) if isinstance(v1, (LocalArr, Arr, ArrParam)) else None
+                if A is None or is_opaque(A) or A.ndim != 1:
+                    ctx.unknown(rule, c, f"result field {k} not recognised: {v1!r}"[:200], where); n_ob += 1; continue
+                jv = A.axes[0][0]
+                bad = None; unk = None
+                for path, leaf in pv_leaves(A.body):
+                    x = to_x(leaf) if not is_opaque(leaf) else None
+                    if x is None: unk = f"element {leaf!r}"[:160]; continue
+                    y, raw = _strip_finite(x)
+                    if not raw: continue
+                    if _proven_finite(tuple(path0) + tuple(path), x, jv): continue
+                    bad = (path_text(tuple(path0) + tuple(path)), raw); break
+                n_ob += 1
+                if bad:
+                    ctx.violated(rule, c, f"on the path [{bad[0]}] the statistic reaches the result as the raw kernel output ({', '.join(bad[1])}) without "
+                                 "np.nan_to_num(nan=0, posinf=0, neginf=0) and without a finiteness test of that array: a finite record whose segment power "
+                                 "overflows gives inf/nan densities and coherence", where)
+                elif unk: ctx.unknown(rule, c, unk, where)
+                else: ctx.holds(rule, c, "made finite (or tested finite) on every path", where)
+    ctx.need("data statistics of the assembled result", n_ob, 7)
